@@ -33,7 +33,7 @@ TECHNIQUE = "runtime monitoring: history checker over recorded read/write cycles
 
 OPTSETS = [{}, {"version": 1.2}, {"version": 2, "wrap": True}, {"fmt": "%.2f"}, {"wrap": True, "data_width": 40, "fmt": "%.3f"},
            {"mnemonics_header": True, "data_section_header": "~A"}, {"version": 1.2, "wrap": False, "len_numeric_field": -1}]
-MUTATIONS = ["none", "dup_curve", "blank_curve", "dup_param", "unit_point1in", "empty_values", "long_fields", "blank_param", "empty_step"]
+MUTATIONS = ["none", "dup_curve", "blank_curve", "dup_param", "unit_point1in", "empty_values", "long_fields", "blank_param", "empty_step", "dup_null"]
 
 
 def corpus():
@@ -47,6 +47,11 @@ def grid(tier):
     for i, fn in enumerate(corpus()):
         for mi in range(1, len(MUTATIONS)):
             yield {"input": fn, "mutation": MUTATIONS[mi], "opts": (i + mi) % len(OPTSETS)}
+    for i, fn in enumerate(corpus()):
+        if i % 3 == 0:
+            yield {"input": fn, "mutation": "dup_null", "opts": 1}
+    for k in range(20):
+        yield {"input": "gen", "seed": 1000 + k, "mutation": "dup_null", "opts": [1, 6][k % 2]}
     for k in range(60 if tier == "quick" else 400):
         yield {"input": "gen", "seed": k, "mutation": "none", "opts": k % len(OPTSETS)}
 
@@ -92,6 +97,13 @@ def mutate(lasio, las, mutation):
             las.well["STEP"].unit = ""
             las.well["STEP"].value = ""
         las.params.append(lasio.HeaderItem("NOUNIT", "", "", "empty value, no unit"))
+    elif mutation == "dup_null":
+        # a second NULL line in ~Well; NaN samples are replaced so that the object stays writable
+        las.well.append(lasio.HeaderItem("NULL", "", -9999, "second null value"))
+        for c in las.curves:
+            d = np.asarray(c.data)
+            if d.dtype.kind == "f" and np.isnan(d).any():
+                c.data = np.where(np.isnan(d), 1.5, d)
     elif mutation == "long_fields":
         las.well.append(lasio.HeaderItem("LONGMNEMONIC_LONGMNEMONIC_X", "averyveryverylongunit", "v" * 120, "d " * 80))
     return las
@@ -110,6 +122,7 @@ def run_case(case, ctx):
         if case["input"] == "gen":
             import random
             las = lasobj.build(lasio, lasobj.rand_spec(random.Random(case["seed"])))
+            las = mutate(lasio, las, case["mutation"])
         else:
             las = lasio.read(os.path.join(env.REPO, case["input"]))
             las = mutate(lasio, las, case["mutation"])
